@@ -10,6 +10,7 @@ import Mfi.Model.Risk
 import Mfi.Lemmas.FxL
 import Mfi.Lemmas.ResL
 import Mfi.Lemmas.SkelL
+import Mfi.Gen.Oracles
 
 namespace Mfi.Props.C09
 open Mfi Mfi.Fx Mfi.Risk Mfi.Gen
@@ -315,6 +316,85 @@ theorem positive_price_before_seizure :
       occursBefore l (· == .zeroAssetPriceCheck) isOp = true) := by decide
 
 end tables
+
+/-! ### every oracle kind binds every account it reads (adapter arms regenerated from state/price.rs) -/
+
+section arms
+open Mfi.Gen.Ora
+
+def isLoad : OEv → Bool
+  | .loadPyth _ | .loadSwb _ => true
+  | _ => false
+
+def firstLoad (l : List OEv) : Nat := (l.findIdx? isLoad).getD l.length
+
+def declaredLen (l : List OEv) : Option Nat := l.findSome? fun | .lenCheck n => some n | _ => none
+
+/-- index of the first occurrence of an event -/
+def at? (l : List OEv) (e : OEv) : Option Nat := l.findIdx? (· == e)
+
+def before (l : List OEv) (e : OEv) (k : Nat) : Bool := match at? l e with | some i => decide (i < k) | none => false
+
+/-- an arm that produces a price -/
+def pricing (l : List OEv) : Bool := l.any isLoad || l.contains .fixedNonNegCheck
+
+/-- **the arms are all there**: 13 oracle setups; `None` refuses, the two deprecated ones abort -/
+theorem arms_complete :
+    arms.length = 13 ∧ arm_None = [.notSetup] ∧ arm_PythLegacy = [.deprecatedPanic] ∧ arm_SwitchboardV2 = [.deprecatedPanic] ∧
+    (arms.filter fun a => pricing a.2).length = 10 := by decide
+
+/-- **every_account_bound**: every pricing arm first fixes the number of accounts, and every one of those accounts
+    is compared with the bank's configured key at its own index before any price is loaded (exact oracle account
+    configured for the bank — for venue-backed banks also the reserve / spot market / stake accounts) -/
+theorem every_account_bound :
+    ∀ a ∈ arms, pricing a.2 = true →
+      a.2.head? = (declaredLen a.2).map OEv.lenCheck ∧
+      (match declaredLen a.2 with
+       | some n => (List.range n).all fun i => before a.2 (.keyCheck i) (firstLoad a.2)
+       | none => false) = true := by decide
+
+/-- **pyth_owner_checked**: a Pyth price account is loaded only after its owner was compared with the receiver program -/
+theorem pyth_owner_checked :
+    ∀ a ∈ arms, (∀ i, a.2.contains (.loadPyth i) = true → i = 0 ∧ before a.2 .pythOwnerCheck (firstLoad a.2) = true) := by
+  intro a ha i
+  have : ∀ a ∈ arms, ∀ i ∈ [0, 1, 2, 9], a.2.contains (.loadPyth i) = true → i = 0 ∧ before a.2 .pythOwnerCheck (firstLoad a.2) = true := by decide
+  intro h
+  have hi : i ∈ [0, 1, 2, 9] := by
+    have : ∀ a ∈ arms, ∀ e ∈ a.2, (match e with | .loadPyth j => decide (j ∈ [0, 1, 2, 9]) | _ => true) = true := by decide
+    have he := List.contains_iff_mem.1 h
+    have := this a ha _ he
+    simpa using this
+  exact this a ha i hi h
+
+/-- **venue_fresh**: venue-backed arms (Kamino / Drift / Solend) load the venue account through the owner- and
+    discriminator-checking loader after its key check, test its staleness next, and only then load the price -/
+theorem venue_fresh :
+    ∀ a ∈ arms, a.2.any (fun | .venueLoader _ => true | _ => false) = true →
+      (match at? a.2 (.keyCheck 1), at? a.2 (.venueLoader 1), at? a.2 .venueStaleCheck with
+       | some k, some l, some s => decide (k < l ∧ l < s ∧ s < firstLoad a.2)
+       | _, _, _ => false) = true := by decide
+
+/-- the venue-backed arms are exactly the six Kamino / Drift / Solend ones -/
+theorem venue_arms :
+    (arms.filter fun a => a.2.any (fun | .venueLoader _ => true | _ => false)).map (·.1) =
+      [.sDriftPythPull, .sDriftSwitchboardPull, .sKaminoPythPush, .sKaminoSwitchboardPull, .sSolendPythPull, .sSolendSwitchboardPull] := by decide
+
+/-- **adjust_complete**: exchange-rate adjustment happens after the load and covers price AND confidence
+    (Pyth: spot, EMA and both confidences; Switchboard: value and standard deviation), so the confidence band
+    keeps its proportion to the price -/
+theorem adjust_complete :
+    ∀ a ∈ arms, a.2.any (fun | .venueLoader _ => true | _ => false) = true →
+      (if a.2.any (fun | .loadPyth _ => true | _ => false)
+       then (a.2.drop (firstLoad a.2 + 1)) = [.adjust .spot, .adjust .ema, .adjust .spotConf, .adjust .emaConf]
+       else (a.2.drop (firstLoad a.2 + 1)) = [.adjust .spot, .adjust .spotConf]) := by decide
+
+/-- a fixed price is checked non-negative; the staked variant refuses an empty stake pool before dividing by its supply -/
+theorem fixed_and_staked :
+    arm_Fixed = [.lenCheck 0, .fixedNonNegCheck] ∧
+    before arm_StakedWithPythPush .supplyPositiveCheck (firstLoad arm_StakedWithPythPush) = true ∧
+    arm_StakedWithPythPush.drop (firstLoad arm_StakedWithPythPush + 1) = [.adjust .spot, .adjust .ema] := by decide
+
+end arms
 
 /-! ### non-vacuity -/
 
